@@ -73,6 +73,13 @@ def parse_harnesses(text):
     return res
 
 
+def name_collisions(names):
+    """Kani's --harness filter matches substrings: a selected harness whose name is contained in another one would
+    silently select that one too (e.g. a thorough-tier harness in the quick tier)"""
+    names = list(names)
+    return [(a, b) for a in names for b in names if a != b and a in b]
+
+
 def collect_obs(text, hs):
     """obligation names per harness: `ob:` messages in the harness body and in helper fns it names."""
     helpers = {}
@@ -222,6 +229,10 @@ def _run_group(units, snap, tier, pkg, t0):
             continue
         hs = parse_harnesses(text)
         collect_obs(text, hs)
+        if name_collisions(hs):
+            r["status"] = "undecided"
+            r["reason"] = "harness names collide under Kani's substring filter: %r" % (name_collisions(hs)[:2],)
+            continue
         sel = {}
         for h, info in hs.items():
             tiers = re.search(r"//\s*@tier\s+(\w+)", info["pre"])
